@@ -35,7 +35,7 @@ LEVEL_NOTE = ('trusted base: release mpmath 1.3.0 + the tree at 3p+300 bits agre
               'in both and at every precision is not seen unless the cell has a defining-relation oracle; inputs outside the '
               'listed cells are not covered')
 TECHNIQUE = 'runtime reference-model monitor: consensus accuracy oracle on every observed special-function value'
-SHARD_TIMEOUT = {'quick': 1800, 'thorough': 7200}     # wall watchdog only; the shards stop on their own CPU budget
+SHARD_TIMEOUT = {'quick': 1800, 'thorough': 21600}     # wall watchdog only; the shards stop on their own CPU budget
 NSHARDS = 16
 
 # value = n / 2^256
